@@ -232,12 +232,13 @@ fn rec_configs(seed: u64, tier: &str) -> Vec<RecCfg> {
             nrec,
             wrap: if rng.chance(1, 3) { rng.range(5, 40) as usize } else { 0 },
             bad_at: None,
-            bad_kind: rng.range(1, 3),
+            bad_kind: rng.range(1, 5),
             stop_after: None,
             init: rng.chance(1, 2),
             reader_init_fails: false,
             rset_fail_at: None,
             rec_fail_at: None,
+            io_fail_at: None,
             seed: common::mix(seed, 1000 + i as u64),
         };
         match variant {
@@ -262,6 +263,7 @@ fn rec_configs(seed: u64, tier: &str) -> Vec<RecCfg> {
                 c.init = true;
                 c.rec_fail_at = Some(rng.range(0, 6));
             }
+            6 => c.io_fail_at = Some(rng.range(0, 6)),
             _ => {}
         }
         v.push(c);
